@@ -39,7 +39,7 @@ CLAIMED: dict[str, tuple[str, str, str, str]] = {
     "C07": (
         "Lean 4 proof of the white-box simplifier model (mutual fuel recursion with explicit detect_recursion stack): refinement to an abstract leaf semantics, leaf facts discharged per fragment + structural differential correspondence (model vs real intersect/union/invert) + truth oracle on environment grids",
         "Machine-checked: intersect/union/invert, intersection()/union(), MultiMarker.of/MarkerUnion.of incl. the `while old != new` fix-point loop, intersect_simplify/union_simplify, cnf/dnf and the RecursionError fallbacks are truth-preserving for EVERY fuel, stack, operand and environment relative to two leaf facts (marker equality => equal truth; a successful _merge_single_markers is the exact conjunction/disjunction); these facts are DISCHARGED, so that `intersect_union_sound_full`, `invert_sound_full`, `empty_any_full` hold with no unproved hypothesis on the full comparison-operator domain: string variables (==/!= on plain values incl. values such as inotify/interix, and the atomic multi/union leaves merges build), extra, python_version \"X.Y\", python_full_version \"X.Y.Z\" incl. the python_version<->python_full_version pairing under python_version = major.minor, platform_release release numbers; inversion additionally on in/not in lists and reversed operands via agreement with the reference evaluator. The universal statement is proved FALSE on the known finding (`not in` united with `not in` -> Any). The model mirrors markers.py branch by branch and agrees structurally (tree, text, flags, truth vectors, error class) with the real code on every generated pair, incl. the complete python_version x python_version operator/adjacent-value universe.",
-        TB + "Still hypotheses: ~= leaves (merge and inversion), merging of in/not in leaves (false on strings: counterexample), ===, other literal shapes; functools caches cleared per case (C20 owns cache transparency); per-request clocks on both sides (counted, never a verdict).",
+        TB + "No unproved hypothesis on: string variables with ==, !=, \"v\" in, \"v\" not in outside the decidable class ncClash (proved exact: notin_union_boundary = the known finding); extra ==/!=; python_version X.Y with the seven operators incl. ~= and in/not in lists of X.Y tokens (lists only on markers without python_full_version leaves); python_full_version X.Y.Z with the seven operators incl. the pairing; platform_release release numbers; final-release interpreters. Outside (listed with one witness per class in the doc comment of C07_leaf_facts_full_statement): other literal shapes, lists on python_full_version, ===. A call-history stream runs respelled / exchanged operands back to back without resetting the memo tables (the other streams reset them per case; C20 owns cache transparency); per-request clocks on both sides (counted, never a verdict).",
         "DESIGN.md §4 C07",
     ),
     "C10": (
@@ -62,7 +62,7 @@ CLAIMED: dict[str, tuple[str, str, str, str]] = {
     "C13": (
         "Lean 4 proof: unconditional CNF/DNF shape theorems, character-level print/parse round trip, meaning preservation on the full comparison-operator domain + structural differential correspondence + re-parse by poetry-core and by the reference parser",
         "Machine-checked, unconditional (every fuel, stack, input): cnf/dnf results have the promised shape (non-empty compounds); `_merge_single_markers` yields Any/Empty/leaf; character-level `parseText (text t) = t` for all lexable trees and the token-level round trip; `__str__` is the text of a grammar tree that `_compact_markers` reads back with the same meaning (parenthesisation vs precedence). On the full comparison-operator domain with quotable values (`print_parse_full`, `algebra_print_parse_full`): results of intersect/union print, parse back and rebuild with the same meaning, and cnf/dnf preserve meaning (C07's discharged leaf facts); agreement with Spec.Pep508 through C06. Every run re-parses every result text by poetry-core and by packaging and re-evaluates it on the environment sample.",
-        TB + "Outside that domain the meaning theorems stay relative to the leaf facts; caches cleared per case; per-request clocks (counted).",
+        TB + "The domain now includes ~= leaves (print_parse_fullC, algebra_print_parse_fullC). Outside it the meaning theorems stay relative to the leaf facts; a call-history stream runs respelled operands back to back without resetting the memo tables; per-request clocks (counted).",
         "DESIGN.md §4 C13",
     ),
     "C17": (
@@ -74,7 +74,7 @@ CLAIMED: dict[str, tuple[str, str, str, str]] = {
     "C19": (
         "Lean 4 proof of error classification and printability over executable models of the parsers + differential token-level fuzz against the real code (six grammars + Factory.validate) + regex stress per pattern source",
         "Machine-checked for EVERY string: Version.parse, the string/extra constraint parsers and the version-constraint parser (any number of `,` and `||`, local labels included) fail only with the documented ValueError, and what they return prints (no IndexError/AssertionError anywhere in parse, intersect, VersionUnion.of, `_inverted`, wildcard printing \u2014 the model's walk fuel is proved sufficient); the marker grammar recogniser fails only with the syntax error; marker leaves fail only with ValueError; all 16 functions of the simplifier block can only fail with fuel/recursion or a leaf-merge error, the AttributeError/IndexError/KeyError/TypeError/RuntimeError branches are dead; parse_marker / Requirement / create_from_pep_508 are classified up to one named residue. Front ends (re, lark) are tied to the models by correspondence (accept/reject, error class, normal text on ~46k fuzz strings per quick run; 2M in thorough); every regex constant of the parser modules is pumped for super-linear back-tracking; Factory.validate is covered by the real-code oracle on type- and key-mutated mappings.",
-        TB + "Partial: `simplifier_residue` (version-constraint algebra on simplifier-built operands; the python_version leaf invariant) and convertMarkersFor are named hypotheses. Eleven defects fixed in /repo; hang-like classes (git URL regexes, 60-level random and/or nesting) and one schema gap are known findings.",
+        TB + "The public entry points are classified without residue: parse_marker (parseMarkerTop) fails only with syntax/value errors (plus the model's own fuel/unmodelled), Requirement and create_from_pep_508 likewise (the latter may leak RecursionError from the un-guarded marker setter: allowed by the model, no input known); the simplifier preserves the leaf invariant (python_version leaves are single markers over good constraints), so its AssertionError/AttributeError branches and the assertion of convert_markers are dead. Open: `.syntax` is not split into grammar error on the input vs lark error on a re-parsed printed marker text. Eleven defects fixed in /repo; hang-like classes (git URL regexes, 60-level random and/or nesting) and one schema gap are known findings.",
         "DESIGN.md §4 C19",
     ),
     "C08": (
@@ -135,7 +135,7 @@ CLAIMED: dict[str, tuple[str, str, str, str]] = {
     "C04": (
         "Lean 4 theorems: parsed constraint membership = formalised packaging specifier semantics, per operator and for sets + differential correspondence (model vs code, spec vs packaging)",
         "Machine-checked proof that membership in the model of the parsed constraint equals the formalised reference semantics (Spec/Specifier.lean, the range-based packaging 26 algorithm): per operator on candidates regular for the literal; every operator but != with final literals on EVERY candidate (incl. ~=, ==V.*), !=V.* on every candidate through the real union `allows`; the exclusive-comparison rules; sets of any length of single-range clauses with no regularity between literals (`>=1.2, ==1.2.*`), and sets with any operators in the regular setting; the documented ranges of ^, ~, bare versions and ||. Every run compares model vs real parse_constraint().allows() and spec vs packaging on ~230k pairs.",
-        TB + "Open: sets containing != / !=V.* whose range ends share a release without being equal; candidates of a literal's own release. Reference = packaging 26.3 in a subprocess. Three in-guard divergence classes are known findings (by design of the range algebra).",
+        TB + "Comma sets without != : membership = reference with no hypothesis beyond the property's guard (all literals final: every candidate incl. the literals' pre/post/dev/local siblings; otherwise candidate regular for each literal); the complement is exactly the class sibling-of-another-literal (witness proved and replayed). Open: sets containing != / !=V.* outside the regular setting. Reference = packaging 26.3 in a subprocess. Three in-guard divergence classes are known findings (by design of the range algebra).",
         "DESIGN.md §4 C04",
     ),
     "C05": (
@@ -148,7 +148,7 @@ CLAIMED: dict[str, tuple[str, str, str, str]] = {
         "the real `allows` (`C05_regular_partial`), incl. the difference merge walks and `_inverted`. Outside that setting the union-level "
         "results stay `_partial` (full statements kept as `def …_full_statement`). The model mirrors the code branch by branch and "
         "is compared structurally (text, dump, flags, membership on regular AND irregular probes) on every run.",
-        TB + "list.sort modelled as stable insertion sort; one known finding (Version ∩ range with local lower bound) proved as a counterexample theorem.",
+        TB + "list.sort modelled as stable insertion sort; one known finding (Version ∩ range with local lower bound) proved as a counterexample theorem. Beyond the regular setting: intersect of non-union operands is exact on ALL versions for half-open ranges (the shape of ^, ~, ~=, ==V.*, >=V,<W) and for members over final versions, and at every probe regular for exclusive-lower / inclusive-upper ends (counterexample for the complement); union-level operations are exact in the regular setting.",
         "DESIGN.md §4 C05",
     ),
     "C09": (
@@ -169,7 +169,7 @@ CLAIMED: dict[str, tuple[str, str, str, str]] = {
         "that empty/universal constraints admit nothing/everything; the self laws are unconditional for every well-formed constraint; in the "
         "regular setting all answers (unions included) never raise, are sound against the real `allows`, and allows_any = non-empty "
         "intersection. The uninhabited-range case is a proved counterexample. Same correspondence stream as C05 with the predicates as columns.",
-        TB + "As C05.",
+        TB + "As C05. Beyond the regular setting: allows_all / allows_any between ranges are right on ALL versions for half-open ranges and at every probe regular for exclusive-lower / inclusive-upper ends; counterexample (>1.0).allows_all(>=1.0.post1) proved and replayed (irregular probe, outside the property's quantifier).",
         "DESIGN.md §4 C12",
     ),
     "C15": (
@@ -182,7 +182,7 @@ CLAIMED: dict[str, tuple[str, str, str, str]] = {
         "membership-equivalent re-parse for `!=V` and `a || b || …` joins (regular setting). Partial: algebra-produced ranges that the printer "
         "happens to spell with a wildcard and wildcard members inside a `||` join are covered by the correspondence (every algebra result "
         "re-printed, re-parsed, probed); a raw spelling ending in a separator is a proved counterexample and a known finding.",
-        TB + "As C05; wildcard printing mirrored incl. the epoch fix.",
+        TB + "As C05; wildcard printing mirrored incl. the epoch fix; every range or two-member union the printer spells with a wildcard re-parses membership-equivalently on every version (lower end not a post-release).",
         "DESIGN.md §4 C15",
     ),
     "C16": (
